@@ -37,17 +37,39 @@ func (ex *Exec) registerDHKey(scalar, pub *Term) {
 			return
 		}
 	}
+	zero := c.zero(256)
 	for _, k := range keys {
-		ex.addAxiom(c.Eq(c.UF("x25519", BV(256), scalar, k.pub), c.UF("x25519", BV(256), k.scalar, pub)))
+		a, b := c.UF("x25519", BV(256), scalar, k.pub), c.UF("x25519", BV(256), k.scalar, pub)
+		ex.addAxiom(c.Eq(a, b))
+		// honestly generated public keys are not low-order points: the shared secret is not zero
+		ex.addAxiom(c.Not(c.Eq(a, zero)))
 	}
+	ex.addAxiom(c.Not(c.Eq(c.UF("x25519", BV(256), scalar, pub), zero)))
 	ex.st["dhkeys"] = append(keys, dhKey{scalar, pub})
 }
 
 func registerMore(e *Engine) {
 	e.reg("golang.org/x/crypto/curve25519.ScalarMult", func(ex *Exec, fn *ssa.Function, args []Value) (Value, *PanicV) {
+		c := ex.ctx
 		s := ex.regionBV(ex.arrPtrRegion(args[1]), 32)
 		p := ex.regionBV(ex.arrPtrRegion(args[2]), 32)
-		ex.storeArr(args[0], ex.ctx.UF("x25519", BV(256), s, p), 32)
+		// canonical form: when the point is (syntactically) the public key of a registered
+		// keypair, both orders X(a, Pub(b)) / X(b, Pub(a)) are written X(lo, Pub(hi))
+		keys, _ := ex.st["dhkeys"].([]dhKey)
+		var mine, peer *dhKey
+		for i := range keys {
+			if keys[i].pub == p {
+				peer = &keys[i]
+			}
+			if keys[i].scalar == s {
+				mine = &keys[i]
+			}
+		}
+		if mine != nil && peer != nil && mine.scalar.id > peer.scalar.id {
+			ex.storeArr(args[0], c.UF("x25519", BV(256), peer.scalar, mine.pub), 32)
+			return nil, nil
+		}
+		ex.storeArr(args[0], c.UF("x25519", BV(256), s, p), 32)
 		return nil, nil
 	})
 	e.reg("golang.org/x/crypto/curve25519.ScalarBaseMult", func(ex *Exec, fn *ssa.Function, args []Value) (Value, *PanicV) {
@@ -70,6 +92,12 @@ func registerMore(e *Engine) {
 		repr := c.UF("ell2repr", BV(256), s, tweak)
 		// decode(representative) == public key (C07 is about the real code; here it is the contract)
 		ex.addAxiom(c.Eq(c.UF("ell2dec", BV(256), c.BAnd(repr, ell2Mask(c))), pub))
+		reprs, _ := ex.st["ell2reprs"].(map[*Term]*Term)
+		if reprs == nil {
+			reprs = map[*Term]*Term{}
+			ex.st["ell2reprs"] = reprs
+		}
+		reprs[repr] = pub
 		ex.registerDHKey(s, pub)
 		ex.storeArr(args[0], pub, 32)
 		ex.storeArr(args[1], repr, 32)
@@ -78,6 +106,14 @@ func registerMore(e *Engine) {
 	e.reg(ell+".RepresentativeToPublicKey", func(ex *Exec, fn *ssa.Function, args []Value) (Value, *PanicV) {
 		c := ex.ctx
 		r := ex.regionBV(ex.arrPtrRegion(args[1]), 32)
+		if reprs, ok := ex.st["ell2reprs"].(map[*Term]*Term); ok {
+			if pub, ok := reprs[r]; ok {
+				// the representative of a generated keypair decodes to its public key (contract of
+				// ScalarBaseMult); written syntactically so that both handshake sides share terms
+				ex.storeArr(args[0], pub, 32)
+				return nil, nil
+			}
+		}
 		ex.storeArr(args[0], c.UF("ell2dec", BV(256), c.BAnd(r, ell2Mask(c))), 32)
 		return nil, nil
 	})
